@@ -243,7 +243,8 @@ static void frame_bufferless(int nch, const ll* ch, ZSTD_compressionParameters c
 }
 
 /* block-level session (ZSTD_compressBlock): R3.  mode 0 = ZSTD_compressBegin_usingDict(level) with a raw dictionary (or none),
- * mode 1 = ZSTD_compressBegin_usingCDict with a by-reference raw-content CDict of that level (attached: pledged size unknown).
+ * mode 1 = ZSTD_compressBegin_usingCDict with a by-reference raw-content CDict of that level (attached: pledged size unknown);
+ * modes 2 / 3 = the same two begins followed by ZSTD_compressContinue / ZSTD_compressEnd (frame mode, sizes not clamped).
  * Chunks are (offset,size) in the arena, possibly non-contiguous and possibly overlapping the previous chunk (a caller
  * re-using its input buffer); each size is clamped to ZSTD_getBlockSize().  The window state after begin and after every
  * block is printed for the model (opcode 104 = OpBlockMode); blocks are decoded with ZSTD_decompressBlock / ZSTD_insertBlock
@@ -257,27 +258,30 @@ static void frame_blockapi(int mode, int level, size_t dOff, size_t dSize, int n
     size_t* const csz = (size_t*)calloc((size_t)nch + 1, sizeof(size_t)); size_t* const usz = (size_t*)calloc((size_t)nch + 1, sizeof(size_t));
     for (i = 0; i < nch; i++) total += (size_t)ch[2 * i + 1];
     need_cbuf(total + (size_t)nch * 32);
-    if (mode == 1) { cd = ZSTD_createCDict_byReference(d, dSize, level); if (!cd) { printf("E blockapi cdict\n"); return; } }
+    if (mode & 1) { cd = ZSTD_createCDict_byReference(d, dSize, level); if (!cd) { printf("E blockapi cdict\n"); return; } }
     p0 = pre();
-    r = (mode == 1) ? ZSTD_compressBegin_usingCDict(cctx, cd) : ZSTD_compressBegin_usingDict(cctx, d, dSize, level); bad |= ZSTD_isError(r);
+    r = (mode & 1) ? ZSTD_compressBegin_usingCDict(cctx, cd) : ZSTD_compressBegin_usingDict(cctx, d, dSize, level); bad |= ZSTD_isError(r);
     fr = forced(p0);
     nb0 = cctx->blockState.matchState.window.nbOverflowCorrections;
-    printf("B api=blockbegin forced=%d lit=%lld dict=%d,%zu,%zu err=%d", fr, AOFF(litAddr), dSize ? (mode == 1 ? 2 : 1) : 0, dOff, dSize, bad);
+    printf("B api=blockbegin forced=%d lit=%lld dict=%d,%zu,%zu err=%d", fr, AOFF(litAddr), dSize ? ((mode & 1) ? 2 : 1) : 0, dOff, dSize, bad);
     state_out(cctx);
     if (cd) { const ZSTD_matchState_t* const cm = &cd->matchState; w_out("CD", &cm->window); printf(" cdl=%u cdn=%u", cm->loadedDictEnd, cm->nextToUpdate); }
     printf("\n");
-    r = (mode == 1) ? ZSTD_compressBegin_usingCDict(fresh, cd) : ZSTD_compressBegin_usingDict(fresh, d, dSize, level); bad |= ZSTD_isError(r);
+    r = (mode & 1) ? ZSTD_compressBegin_usingCDict(fresh, cd) : ZSTD_compressBegin_usingDict(fresh, d, dSize, level); bad |= ZSTD_isError(r);
     fnb0 = fresh->blockState.matchState.window.nbOverflowCorrections;
     for (i = 0; i < nch && !bad; i++) {
         const BYTE* const s = arena + ch[2 * i]; size_t n = (size_t)ch[2 * i + 1];
-        if (n > ZSTD_getBlockSize(cctx)) n = ZSTD_getBlockSize(cctx);
+        int const last = (i == nch - 1);
+        if (mode < 2 && n > ZSTD_getBlockSize(cctx)) n = ZSTD_getBlockSize(cctx);
         usz[i] = n;
-        r = ZSTD_compressBlock(cctx, cbuf + pos, cbufCap - pos, s, n);
+        r = (mode >= 2) ? (last ? ZSTD_compressEnd(cctx, cbuf + pos, cbufCap - pos, s, n) : ZSTD_compressContinue(cctx, cbuf + pos, cbufCap - pos, s, n))
+                        : ZSTD_compressBlock(cctx, cbuf + pos, cbufCap - pos, s, n);
         if (ZSTD_isError(r)) { bad = 1; printf("E blockapi %s\n", ZSTD_getErrorName(r)); break; }
         csz[i] = r; pos += r;
-        printf("C api=block off=%lld size=%zu csz=%zu", ch[2 * i], n, r);
+        printf("C api=%s off=%lld size=%zu csz=%zu", mode >= 2 ? (last ? "end" : "continue") : "block", ch[2 * i], n, r);
         state_out(cctx); printf("\n");
-        r = ZSTD_compressBlock(fresh, cbuf2 + pos2, cbufCap - pos2, s, n);
+        r = (mode >= 2) ? (last ? ZSTD_compressEnd(fresh, cbuf2 + pos2, cbufCap - pos2, s, n) : ZSTD_compressContinue(fresh, cbuf2 + pos2, cbufCap - pos2, s, n))
+                        : ZSTD_compressBlock(fresh, cbuf2 + pos2, cbufCap - pos2, s, n);
         if (ZSTD_isError(r)) { bad = 1; break; }
         if (r != csz[i]) bad |= 2;     /* outputs differ in size: remembered, not an error */
         pos2 += r;
@@ -285,9 +289,17 @@ static void frame_blockapi(int mode, int level, size_t dOff, size_t dSize, int n
     if (!(bad & 1)) {
         BYTE* const dec = (BYTE*)malloc(total + 1); size_t cp = 0;
         rt = 1;
-        r = ZSTD_decompressBegin_usingDict(dctx, d, dSize);
+        if (mode >= 2) {   /* frame mode (ZSTD_compressContinue / ZSTD_compressEnd): one frame */
+            BYTE* const cat = (BYTE*)malloc(total + 1); size_t qq = 0;
+            for (i = 0; i < nch; i++) { memcpy(cat + qq, arena + ch[2 * i], usz[i]); qq += usz[i]; }
+            r = ZSTD_decompress_usingDict(dctx, dec, total + 1, cbuf, pos, d, dSize);
+            if (ZSTD_isError(r)) { printf("D blockapi frame: %s\n", ZSTD_getErrorName(r)); rt = 0; }
+            else if (r != qq || memcmp(dec, cat, qq) != 0) { printf("D blockapi frame decodes to other bytes\n"); rt = 0; }
+            free(cat);
+        }
+        else r = ZSTD_decompressBegin_usingDict(dctx, d, dSize);
         if (ZSTD_isError(r)) rt = 0;
-        for (i = 0; i < nch && rt; i++) {
+        for (i = 0; i < nch && rt && mode < 2; i++) {
             if (csz[i] == 0) { memcpy(dec + q, arena + ch[2 * i], usz[i]); r = usz[i] ? ZSTD_insertBlock(dctx, dec + q, usz[i]) : 0; }
             else r = ZSTD_decompressBlock(dctx, dec + q, total - q, cbuf + cp, csz[i]);
             if (ZSTD_isError(r)) { printf("D blockapi block %d: %s\n", i, ZSTD_getErrorName(r)); rt = 0; break; }
